@@ -108,7 +108,7 @@ package client
 //@ invokes Session.DeletePacket(0): (*Client).processPubrel
 //@ invokes Session.DeletePacket(1): (*Client).processSuback, (*Client).processUnsuback, (*Client).processPubackAndPubcomp
 //@ callsites (*Future).Complete: (*Client).PublishMessage, (*Client).processConnack, (*Client).processSuback, (*Client).processUnsuback, (*Client).processPubackAndPubcomp
-//@ callsites (*Store).Clear: (*Client).cleanup
+//@ callsites (*Store).Clear: (*Client).cleanup, (*Service).Stop
 //
 //@ func (c *Client) send(pkt packet.Generic, async bool) (err error)
 //@   requires [client] running(c)
